@@ -8,5 +8,12 @@ func init() {
 		directed{"in_receiver", "btc", []string{"request", "tip=anchor+300", "restart", "otb", "tx_confirmed"}},
 		directed{"out_sender", "btc", []string{"start", "out_agreement", "tip=anchor+200", "restart", "tip=anchor+450", "restart", "otb", "tx_confirmed"}},
 		directed{"in_receiver", "lbtc", []string{"request", "tip=anchor+20", "restart", "otb", "tx_confirmed"}},
+		// C04 / C05: the first claim payment attempt fails, the tip crosses the end of the window between the attempts
+		// (every attempt - also one made by code that polls the height at another point - must lie inside the window)
+		directed{"out_sender", "lbtc", []string{"start", "out_agreement", "otb", "pay=fail1:tips=+30,+59,+61:tx_confirmed"}},
+		directed{"out_sender", "lbtc", []string{"start", "out_agreement", "otb", "pay=fail1:tips=+59,+60,+60:tx_confirmed"}},
+		directed{"in_receiver", "lbtc", []string{"request", "otb", "pay=fail1:tips=+58,+59,+60:tx_confirmed"}},
+		directed{"out_sender", "btc", []string{"start", "out_agreement", "otb", "pay=fail1:tips=+100,+504,+505:tx_confirmed"}},
+		directed{"in_receiver", "btc", []string{"request", "otb", "pay=fail1:tips=+503,+504,+505:tx_confirmed"}},
 	)
 }
